@@ -10,7 +10,7 @@ for df in "$DIR"/r*.diff; do
   ( cd "$D" && go build ./... ) >/dev/null 2>&1 || { echo "$(basename $df): build fails"; rm -rf "$D"; continue; }
   FIRED=""
   for P in $PROPS; do
-    OUT=$(SBPF_REPO=$D /verif/bin/sbpfcheck -prop $P -tier quick -verif "$D/.verif" 2>&1); RC=$?
+    OUT=$(SBPF_REPO=$D ${SBPF_BIN:-/verif/bin/sbpfcheck} -prop $P -tier quick -verif "$D/.verif" 2>&1); RC=$?
     if [ $RC -ne 0 ]; then FIRED="$FIRED $P"; echo "$OUT" | grep -E '^   (VIOLATED|UNDECIDED)|vacuous|FLOOR|panic' | cut -c1-330 | head -8 | sed "s/^/   [$(basename $df) $P] /"; fi
   done
   echo "$(basename $df): fired:${FIRED:- none}"
